@@ -2,6 +2,10 @@ import QF.Props.C01Ops
 import QF.Props.C08ProjectGen
 import QF.Props.C06FApplyGen
 import QF.Props.C17EnumRestGen
+import QF.Props.C04LoopsGen
+import QF.Props.C04GlueGen
+import QF.Props.C01FreshCL
+import QF.Props.C01FreshGL
 /-!
 # C01 — persistence from the REGENERATED operations
 
@@ -16,6 +20,9 @@ runs of the terms the translator regenerates from today's Go source, from the wr
 | the built-in `ToUpper` of enum columns — `EUFn.run`                              | `EUOut.writes`, `dataShared`: `C06FApplyGen.gen_eupper_semantics` |
 | `ecolumn.Subset` — `SS.run`                                                      | `SubOut.freshCells`: `C17EnumRestGen.gen_enum_subset_semantics` |
 | the loops of `Apply1` / `Apply2` (five column packages) and `apply0` — `LFn.run`  | static check `writesOnlyFresh` (no part of the term is opaque: the only storing statement of the language is `result[slot] = rhs` into the `make` of the same loop; the interpreter cannot change its inputs): `C06LoopsGen.gen_loops_no_opaque` |
+
+| `Filter` (clause evaluation, `QF.CL`), `GroupBy` and the table of `Distinct` (`QF.GL`, glue `QF.GG`) — value-semantics interpreters | static check `C01FreshCL.writesOnlyFresh` / `C01FreshGL.writesOnlyFresh` (provenance: every store targets an array / table made in the same run, or the table owned by the call), SOUND against the interpreter (`tagExec_sound`: the ghost run along the actual run counts no store into an existing array); today's terms pass by `decide` |
+| `Aggregate` (`QF.LGFn`, `QF.LGTail`, `QF.GG.AT`), `FilteredApply` / `WithRowNums` (`QF.FAStm`) — languages of shapes | "no opaque part" (+ `alloc` in front of the loops): every storing construct makes its own target |
 
 ## The simulation
 
@@ -35,9 +42,12 @@ existing array lives in the store is a parameter (`Dir`), what a typed array loo
 * `gen_history_observation_kept` : the same on the typed heap of `QF.PF` — after any history of regenerated whole operations
   every array that existed is unchanged and every well-formed earlier frame observes (`PFrame.abs`, column list, index,
   look-ups) exactly what it observed; `gen_history_observation_kept_from` for frames made in the middle of the history;
-* `any_history_persistent_partial` : histories that MIX regenerated runs with the hand models of C01Ops (those families
-  whose regenerated interpreters carry no array identities and no write accounting: Filter's clause evaluation, GroupBy /
-  the table, Aggregate).
+* `gen_filter_own_writes`, `gen_groupBy_own_writes`, `gen_distinct_table_own_writes`, `gen_aggregate_own_writes`,
+  `gen_fapply_own_writes` : the same for the families with value-semantics interpreters (section "The families whose
+  interpreters compute on VALUES"); with them `GRun` covers EVERY public operation and `gen_any_history_persistent` is the
+  full statement.
+* `any_history_persistent_partial` : (kept) histories that MIX regenerated runs with the hand models of C01Ops — no longer
+  needed: every family now enters as a regenerated run.
 * witnesses: `append` onto the shared column list in `setColumn`, sorting the receiver's index in place, `newData :=
   s.data[:0]` in the enum `toUpper`, `newPtrs := s.pointers` in the string one, an in-place `Apply1` — each fails the static
   check / the counter AND its program is not `OwnWrites`.
@@ -482,6 +492,222 @@ theorem witness_apply_in_place {σ : Type} (C : Enc) (E : LEnv σ) (ixId recvId 
   have : F.hasOpaque = true := by decide
   simp [applyEff, this]
 
+/-! ## The families whose interpreters compute on VALUES: Filter, GroupBy, the table of Distinct, Aggregate, FilteredApply
+
+The interpreters of `QF.CL` (clause evaluation of Filter), `QF.GL` (the grouper's hash table), `QF.LGFn` / `QF.LGTail` (the
+loops of `Column.Aggregate` and the first-row index), `QF.GG` (the glue of GroupBy / Distinct / Aggregate) and `QF.FAStm`
+(FilteredApply, WithRowNums) hold lists in variables; they carry no array identities. What makes their runs programs on the
+store is the static check `writesOnlyFresh` on the regenerated TERMS, with its soundness against the interpreter:
+
+* `QF.CL`, `QF.GL` are generic imperative languages (`m[i] = e`, `append`, field updates, pointer receivers): the check is a
+  provenance analysis (`QF.Props.C01FreshCL`, `QF.Props.C01FreshGL`: every storing statement targets a variable only ever
+  bound to arrays / tables made in the same run — or the table owned by the call), sound against the interpreter by the
+  ghost run (`tagExec_sound`: along the actual run no store into an array that existed), today's terms pass by `decide`.
+* `QF.LGFn`, `QF.LGTail`, `QF.GG.AT`, `QF.GG.GB`, `QF.GG.DK`, `QF.FAStm` are languages of SHAPES: every storing construct names
+  its target by construction and the target is made by the construct itself or by one in front of it in the same term —
+  `LGCase.agg … init write`: `out := make(…)` then `out = append(out, …)` / `out[i] = …`; `LGSlice`: the slice handed to the
+  aggregation function, `make` or the function's own buffer re-sliced (`buf[:0]`, `buf` a local of `Column.Aggregate` — the
+  translator accepts nothing else as a buffer, last.go); `LGTail.firstInit/firstWrite`: `first := make(…)`, `first[i] = …`;
+  `AT.alloc` then `AS.putGrouped` / `putNamed` / `appendCol` into the map and the slice `alloc` made, `AS.setPosI` /
+  `setPosLen` / `setName` on the local copy `col` of a map entry, `AS.compute`: `counts := make(…)`; `GB.setOneGroup` /
+  `setIndices` / `setStats` and `FAStm.setIndex` assign a FIELD OF A LOCAL STRUCT (`g := Grouper{…}`, `newQf := qf` — Go copies
+  the struct). Their interpreters cannot change an input. A statement outside these shapes is `.opaque` (seeded C01-7:
+  `inStorageOrder(ix)` in front of `col.Aggregate`), so the check is "no opaque part" (+ `alloc` in front of the loops), as
+  for the apply loops.
+
+What the RESULTS share with the inputs (read off the terms, `C01FreshCL.gen_clauses_result_provenance`,
+`C01FreshGL.gen_grouper_result_provenance`): Filter returns the receiver itself for a failed frame and for `NullClause`, the
+receiver's index UNCHANGED under a new error for an unknown column / a kernel error / a clause error, else a NEW index;
+GroupBy without columns puts the receiver's index header into a new one-element group list (`g.indices =
+[]index.Int{qf.index}`, shared and never written), else the groups are arrays the table built; the table of Distinct
+returns a NEW row array; FilteredApply returns a frame with THE RECEIVER'S index header (`newQf.index = qf.index`) and the
+column list `Apply` made; Aggregate a new ascending index and new columns. Shared arrays are read, never written.
+
+A run is summarised by `freshEff`: the arrays read, then — when the term passes its check — one allocation and one write per
+array the run's OUTCOME says was made; when it does not, a write into the receiver's array (a term that fails may store
+anywhere it can reach). -/
+
+def newActs : List Arr → Nat → List Act
+  | [], _ => []
+  | a :: as, k => .alloc (List.replicate a.length 0) :: .writeNew k a :: newActs as (k + 1)
+
+theorem newActs_fresh (l : List Arr) (k : Nat) : ∀ a ∈ newActs l k, a.fresh = true := by
+  induction l generalizing k with
+  | nil => intro a ha; cases ha
+  | cons x xs ih =>
+    intro a ha
+    simp only [newActs, List.mem_cons] at ha
+    rcases ha with rfl | rfl | ha
+    · rfl
+    · rfl
+    · exact ih _ a ha
+
+/-- the summary of a run of a value-semantics interpreter: `ok` the static check of the term(s), `blame` the receiver's
+array, `news` the arrays the outcome of the run says were made -/
+def freshEff (reads : List Id) (ok : Bool) (blame : Id) (news : List Arr) : Eff where
+  reads := reads
+  acts := fun _ => if ok then newActs news 0 else [Act.writeOld blame []]
+
+theorem freshEff_fresh (reads : List Id) (ok : Bool) (blame : Id) (news : List Arr) (h : ok = true) :
+    (freshEff reads ok blame news).Fresh := by
+  intro ds a ha
+  simp only [freshEff, h, ↓reduceIte] at ha
+  exact newActs_fresh news 0 a ha
+
+theorem freshEff_not_own (reads : List Id) (ok : Bool) (blame : Id) (news : List Arr) (h : ok = false) (base : Nat)
+    (hb : blame < base) : ¬ (freshEff reads ok blame news).prog.OwnWrites base := by
+  refine Eff.not_own _ base fun ds => ⟨[], [], blame, [], ?_, hb⟩
+  simp [freshEff, h]
+
+/-! ### Filter -/
+
+/-- every function of a clause-evaluation unit passes `C01FreshCL.writesOnlyFresh` -/
+def clausesOK (P : List (CL.FnId × CL.Fn)) : Bool :=
+  P.all fun p => C01FreshCL.writesOnlyFresh (C01FreshCL.newFns P) p.2
+
+/-- the arrays a run of `qf.Filter(c)` made, from its outcome: nothing on a failed receiver or for `NullClause` (the receiver
+is returned); else the mask, and — unless the result carries an error (`withErr`: the receiver's index unchanged) — the
+result index -/
+def filterNews (c : F.Clause) (f : F.Frame) : Option F.Frame → List Arr
+  | some g =>
+    if f.err then []
+    else match c with
+      | .null => []
+      | _ => [f.index.map fun p => if g.index.contains p then 1 else 0] ++ (if g.err then [] else [g.index])
+  | none => []
+
+def filterEff (P : List (CL.FnId × CL.Fn)) (O : F.Leaf → CL.LeafCalls) (c : F.Clause) (f : F.Frame) (ixId colsId : Id) : Eff :=
+  freshEff [ixId, colsId] (clausesOK P) ixId (filterNews c f (CL.interp P O c f))
+
+theorem clausesOK_today : clausesOK Gen.clauseFns = true :=
+  List.all_eq_true.2 fun p hp => C01FreshCL.gen_clauses_writes_only_fresh p hp
+
+/-- `qf.Filter(c)` of today's source as a program on the store -/
+def filterProg (O : F.Leaf → CL.LeafCalls) (c : F.Clause) (f : F.Frame) (ixId colsId : Id) : Prog Unit :=
+  (filterEff Gen.clauseFns O c f ixId colsId).prog
+
+/-- **Filter of today's source writes only arrays it allocates** — every clause tree, receiver, leaf oracle. -/
+theorem gen_filter_own_writes (O : F.Leaf → CL.LeafCalls) (c : F.Clause) (f : F.Frame) (ixId colsId : Id) :
+    ∀ base, (filterProg O c f ixId colsId).OwnWrites base :=
+  Eff.own _ (freshEff_fresh _ _ _ _ clausesOK_today)
+
+/-! ### GroupBy and the table of Distinct -/
+
+/-- every function of a grouper unit passes `C01FreshGL.writesOnlyFresh` (mutating methods with their owned receiver) -/
+def grouperOK (P : List (GL.FnId × GL.Fn)) : Bool :=
+  P.all fun p => C01FreshGL.writesOnlyFresh (C01FreshGL.mutFns P)
+    (C01FreshGL.newFns P (C01FreshGL.mutFns P) (C01FreshGL.newFns P (C01FreshGL.mutFns P) (fun _ => false)))
+    (C01FreshGL.mutFns P p.1) p.2
+
+theorem grouperOK_today : grouperOK Gen.grouperFns = true :=
+  List.all_eq_true.2 fun p hp => C01FreshGL.gen_grouper_writes_only_fresh p hp
+
+/-- `qf.GroupBy(…)`: the glue (`QF.GG.GB`) and `grouper.GroupBy`; made: every group and the group list -/
+def groupByEff (P : List (GL.FnId × GL.Fn)) (glue : GG.GB) (fuel : Nat) (cs : List GL.Cmp) (ix : List Nat) (ixId colsId : Id) : Eff :=
+  freshEff [ixId, colsId] (grouperOK P && !glue.hasOpaque) ixId
+    (match GL.interpGroupBy P fuel cs ix with
+     | some (gs, _) => gs ++ [gs.map List.length]
+     | none => [])
+
+def groupByProg (fuel : Nat) (cs : List GL.Cmp) (ix : List Nat) (ixId colsId : Id) : Prog Unit :=
+  (groupByEff Gen.grouperFns Gen.groupByAst fuel cs ix ixId colsId).prog
+
+theorem gen_groupBy_own_writes (fuel : Nat) (cs : List GL.Cmp) (ix : List Nat) (ixId colsId : Id) :
+    ∀ base, (groupByProg fuel cs ix ixId colsId).OwnWrites base :=
+  Eff.own _ (freshEff_fresh _ _ _ _ (by
+    rw [Bool.and_eq_true]; exact ⟨grouperOK_today, by rw [QF.Props.C04GlueGen.gen_glue_no_opaque.1]; rfl⟩))
+
+/-- the table of `qf.Distinct(…)`: what `QFrame.Distinct` hands over (`QF.GG.DK`) and `grouper.Distinct`; made: the rows -/
+def distinctTableEff (P : List (GL.FnId × GL.Fn)) (dk : GG.DK) (fuel : Nat) (cs : List GL.Cmp) (ix : List Nat) (ixId colsId : Id) : Eff :=
+  freshEff [ixId, colsId] (grouperOK P && !dk.hasOpaque) ixId
+    (match GL.interpDistinct P fuel cs ix with
+     | some l => [l]
+     | none => [])
+
+def distinctTableProg (fuel : Nat) (cs : List GL.Cmp) (ix : List Nat) (ixId colsId : Id) : Prog Unit :=
+  (distinctTableEff Gen.grouperFns Gen.distinctCmpsAst fuel cs ix ixId colsId).prog
+
+theorem gen_distinct_table_own_writes (fuel : Nat) (cs : List GL.Cmp) (ix : List Nat) (ixId colsId : Id) :
+    ∀ base, (distinctTableProg fuel cs ix ixId colsId).OwnWrites base :=
+  Eff.own _ (freshEff_fresh _ _ _ _ (by
+    rw [Bool.and_eq_true]; exact ⟨grouperOK_today, by rw [QF.Props.C04GlueGen.gen_glue_no_opaque.2.2.2.2]; rfl⟩))
+
+/-! ### Aggregate -/
+
+/-- the static check on the terms of Aggregate: the loop of `Column.Aggregate`, the first-row index, the glue — no part
+outside the shapes, and the map / slice of the result allocated in front of the loops that fill them -/
+def aggregateOK (F : LGFn) (tail : LGTail) (glue : List GG.AT) : Bool :=
+  !F.hasOpaque && !tail.hasOpaque && glue.all (fun t => !t.hasOpaque) &&
+    ((glue.takeWhile fun t => match t with | .keyLoop _ | .aggLoop _ => false | _ => true).any fun t => t == .alloc)
+
+/-- made: the first-row index, the cells of the aggregated column -/
+def aggregateEff (C : Enc) (F : LGFn) (tail : LGTail) (glue : List GG.AT) (E : LGEnv) (z : Cell) (groupsId recvId : Id) : Eff :=
+  freshEff [groupsId, recvId] (aggregateOK F tail glue) recvId
+    ((match tail.first E.groups with | some l => [l] | none => []) ++
+     (match F.run E z with | .col _ cells => [C.cells cells] | _ => []))
+
+theorem aggregateOK_today : ∀ ty ∈ QF.Props.C02Kernels.tys,
+    aggregateOK (QF.Props.C04LoopsGen.aggregateOf ty) Gen.grouperTailAst Gen.aggregateGlueAst = true := by decide
+
+def aggregateProg (C : Enc) (ty : CType) (E : LGEnv) (z : Cell) (groupsId recvId : Id) : Prog Unit :=
+  (aggregateEff C (QF.Props.C04LoopsGen.aggregateOf ty) Gen.grouperTailAst Gen.aggregateGlueAst E z groupsId recvId).prog
+
+theorem gen_aggregate_own_writes (C : Enc) (ty : CType) (hty : ty ∈ QF.Props.C02Kernels.tys) (E : LGEnv) (z : Cell)
+    (groupsId recvId : Id) : ∀ base, (aggregateProg C ty E z groupsId recvId).OwnWrites base :=
+  Eff.own _ (freshEff_fresh _ _ _ _ (aggregateOK_today ty hty))
+
+/-! ### FilteredApply, WithRowNums -/
+
+def fapplyOK (stms : List FAStm) : Bool := stms.all fun s => !s.hasOpaque
+
+/-- the plumbing of `FilteredApply` / `WithRowNums` makes no array: it copies frame VALUES and assigns the index field of a
+local copy; `Filter` and `Apply` inside it are runs of their own -/
+def fapplyEff (stms : List FAStm) (ixId colsId : Id) : Eff := freshEff [ixId, colsId] (fapplyOK stms) ixId []
+
+theorem fapplyOK_today : fapplyOK Gen.fapplyAst = true ∧ fapplyOK Gen.rowNumsFnAst = true := by decide
+
+/-- `rowNums = false`: `FilteredApply`; `true`: `WithRowNums` -/
+def fapplyProg (rowNums : Bool) (ixId colsId : Id) : Prog Unit :=
+  (fapplyEff (if rowNums then Gen.rowNumsFnAst else Gen.fapplyAst) ixId colsId).prog
+
+theorem gen_fapply_own_writes (rowNums : Bool) (ixId colsId : Id) : ∀ base, (fapplyProg rowNums ixId colsId).OwnWrites base :=
+  Eff.own _ (freshEff_fresh _ _ _ _ (by cases rowNums <;> simp [fapplyOK_today.1, fapplyOK_today.2]))
+
+/-! ### Witnesses for these families -/
+
+/-- **Witness: a Filter that compacts the surviving rows into the receiver's index** (`C01FreshCL.leavesInPlace` in the
+place of `QFrame.filter`): the unit fails the check and the program of ANY run of it writes the receiver's index. -/
+theorem witness_filter_in_place (O : F.Leaf → CL.LeafCalls) (c : F.Clause) (f : F.Frame) (ixId colsId base : Nat) (hb : ixId < base) :
+    clausesOK ((CL.FnId.leaves, C01FreshCL.leavesInPlace) :: Gen.clauseFns) = false ∧
+    ¬ (filterEff ((CL.FnId.leaves, C01FreshCL.leavesInPlace) :: Gen.clauseFns) O c f ixId colsId).prog.OwnWrites base := by
+  have h : clausesOK ((CL.FnId.leaves, C01FreshCL.leavesInPlace) :: Gen.clauseFns) = false := by decide
+  exact ⟨h, freshEff_not_own _ _ _ _ h base hb⟩
+
+/-- **Witness: a Distinct that collects its rows in the caller's index / a grouper that appends to the caller's index
+slice** (`C01FreshGL.distinctInPlace`, `groupByIntoCallerIx`). -/
+theorem witness_grouper_in_place (fuel : Nat) (cs : List GL.Cmp) (ix : List Nat) (ixId colsId base : Nat) (hb : ixId < base) :
+    ¬ (distinctTableEff ((GL.FnId.distinct, C01FreshGL.distinctInPlace) :: Gen.grouperFns) Gen.distinctCmpsAst fuel cs ix ixId colsId).prog.OwnWrites base ∧
+    ¬ (groupByEff ((GL.FnId.groupBy, C01FreshGL.groupByIntoCallerIx) :: Gen.grouperFns) Gen.groupByAst fuel cs ix ixId colsId).prog.OwnWrites base := by
+  have h1 : grouperOK ((GL.FnId.distinct, C01FreshGL.distinctInPlace) :: Gen.grouperFns) = false := by decide
+  have h2 : grouperOK ((GL.FnId.groupBy, C01FreshGL.groupByIntoCallerIx) :: Gen.grouperFns) = false := by decide
+  exact ⟨freshEff_not_own _ _ _ _ (by rw [h1]; rfl) base hb, freshEff_not_own _ _ _ _ (by rw [h2]; rfl) base hb⟩
+
+/-- **Witness (seeded C01-7): `inStorageOrder(ix)` — an in-place sort of every group's index — in front of
+`col.Aggregate(g.indices, agg.Fn)`.** The statement is outside the shapes of the glue, the term fails the check, and the
+program of any run writes the grouper's array. -/
+theorem witness_aggregate_sorts_groups (C : Enc) (ty : CType) (E : LGEnv) (z : Cell) (groupsId recvId base : Nat) (hb : recvId < base) :
+    let glue : List GG.AT := [.ifGrouperErr, .firstRows 0, .alloc,
+      .keyLoop [.lookupGrouped, .setPosI, .subsetFirst, .putGrouped, .appendCol], .declErr,
+      .aggLoop [.lookupAggOrErr, .nameFromColumn, .nameFromAsIfSet, .setName, .setPosLen, .rejectIfPresent,
+        .opaque "for _, ix := range g.indices { inStorageOrder(ix) }", .compute "count", .putNamed, .appendCol], .retFrame]
+    aggregateOK (QF.Props.C04LoopsGen.aggregateOf ty) Gen.grouperTailAst glue = false ∧
+    ¬ (aggregateEff C (QF.Props.C04LoopsGen.aggregateOf ty) Gen.grouperTailAst glue E z groupsId recvId).prog.OwnWrites base := by
+  intro glue
+  have h : aggregateOK (QF.Props.C04LoopsGen.aggregateOf ty) Gen.grouperTailAst glue = false := by
+    have : (glue.all fun t => !t.hasOpaque) = false := by decide
+    simp [aggregateOK, this]
+  exact ⟨h, freshEff_not_own _ _ _ _ h base hb⟩
+
 /-! ## Any regenerated run; histories -/
 
 /-- A run of regenerated code, with everything it starts from. -/
@@ -499,6 +725,16 @@ inductive GRun : Type 1 where
   | subset (c : ER.Col) (index : List Nat) (ixId cellsId : Id)
   /-- the loop of `Apply1` / `Apply2` of a column package, or of `apply0` -/
   | applyLoop (σ : Type) (f : ApplyFn) (E : LEnv σ) (ixId recvId otherId : Id)
+  /-- `Filter`: the clause evaluation (`QF.CL`), any clause tree -/
+  | filter (O : F.Leaf → CL.LeafCalls) (c : F.Clause) (f : F.Frame) (ixId colsId : Id)
+  /-- `GroupBy`: the glue and the hash table of internal/grouper (`QF.GG.GB`, `QF.GL`) -/
+  | groupBy (fuel : Nat) (cs : List GL.Cmp) (ix : List Nat) (ixId colsId : Id)
+  /-- the table of `Distinct` (`QF.GG.DK`, `QF.GL`); its result index goes through `GRun.op` -/
+  | distinctTable (fuel : Nat) (cs : List GL.Cmp) (ix : List Nat) (ixId colsId : Id)
+  /-- `Grouper.Aggregate`: the glue, the first-row index, the loop of `Column.Aggregate` of a column package -/
+  | aggregate (ty : CType) (hty : ty ∈ QF.Props.C02Kernels.tys) (E : LGEnv) (z : Cell) (groupsId recvId : Id)
+  /-- the plumbing of `FilteredApply` (`false`) / `WithRowNums` (`true`) -/
+  | fapply (rowNums : Bool) (ixId colsId : Id)
 
 def GRun.prog (C : Enc) : GRun → Prog Unit
   | .op g h D => g.prog C D h
@@ -507,6 +743,11 @@ def GRun.prog (C : Enc) : GRun → Prog Unit
   | .eupper up E _ a b => eupperProg C up E a b
   | .subset c index a b => subsetProg c index a b
   | .applyLoop _ f E a b c => applyProg C f E a b c
+  | .filter O c f a b => filterProg O c f a b
+  | .groupBy fuel cs ix a b => groupByProg fuel cs ix a b
+  | .distinctTable fuel cs ix a b => distinctTableProg fuel cs ix a b
+  | .aggregate ty _ E z a b => aggregateProg C ty E z a b
+  | .fapply r a b => fapplyProg r a b
 
 /-- **Every regenerated run writes only arrays it allocates.** -/
 theorem gen_run_own_writes (C : Enc) (r : GRun) : ∀ base, (r.prog C).OwnWrites base := by
@@ -517,10 +758,18 @@ theorem gen_run_own_writes (C : Enc) (r : GRun) : ∀ base, (r.prog C).OwnWrites
   | eupper up E hc a b => exact gen_eupper_own_writes C up E hc a b
   | subset c index a b => exact gen_subset_own_writes c index a b
   | applyLoop σ f E a b c => exact gen_apply_loops_own_writes C f E a b c
+  | filter O c f a b => exact gen_filter_own_writes O c f a b
+  | groupBy fuel cs ix a b => exact gen_groupBy_own_writes fuel cs ix a b
+  | distinctTable fuel cs ix a b => exact gen_distinct_table_own_writes fuel cs ix a b
+  | aggregate ty hty E z a b => exact gen_aggregate_own_writes C ty hty E z a b
+  | fapply r a b => exact gen_fapply_own_writes r a b
 
 /-- **C01 for histories of regenerated runs** (`H.history_persistent` instantiated): whatever regenerated operations are
 run one after the other — each started from any heap, directory and arguments —, every array of the initial store keeps
-its contents. -/
+its contents. FULL: `GRun` has a constructor for every public frame-deriving operation — `Slice`, `Select`, `Drop`, `Copy`,
+`setColumn` (the tail of every `Apply` / `Eval` / `WithRowNums`), `Sort`, `Distinct` (result index `.op`, table
+`.distinctTable`), `Filter`, `GroupBy`, `Aggregate`, `Apply1` / `Apply2` / `apply0`, the built-in `ToUpper`s, `Subset`,
+`FilteredApply` — each entering as a RUN OF ITS REGENERATED CODE; no hand model (`AnyOp.hand`) is needed any more. -/
 theorem gen_any_history_persistent (C : Enc) (runs : List GRun) (s : Store) :
     ∀ id, id < s.length → (runAll (runs.map (GRun.prog C)) s).getD id [] = s.getD id [] := by
   refine history_persistent _ s fun p hp base => ?_
@@ -549,8 +798,9 @@ theorem any_op_own_writes (C : Enc) (o : AnyOp) : ∀ base, (o.prog C).OwnWrites
   | gen r => exact gen_run_own_writes C r
   | hand op => exact fun base => op_own_writes op base
 
-/- FULL STATEMENT (not proved): every public operation of qframe enters the history as a RUN OF ITS REGENERATED CODE.
-   Proved: the statement for histories in which `Slice`, `Select`, `Drop`, `Copy`, `setColumn`, `Sort` (copy of the index,
+/- (kept from the time when Filter, GroupBy, the table of Distinct and Aggregate had no regenerated run; the FULL statement
+   — every public operation of qframe enters the history as a RUN OF ITS REGENERATED CODE — is now
+   `gen_any_history_persistent` above.) Formerly: FULL STATEMENT (not proved). Proved: the statement for histories in which `Slice`, `Select`, `Drop`, `Copy`, `setColumn`, `Sort` (copy of the index,
    in-place sort of the copy; the sorter's permutation a parameter), `Distinct` (its result index; the table a parameter),
    the functions of internal/index, the built-in `ToUpper` of string and enum columns, `ecolumn.Subset` and the loops of
    `Apply1` / `Apply2` / `apply0` (whose result goes through the regenerated `setColumn`) are regenerated runs (`AnyOp.gen`),
@@ -769,6 +1019,44 @@ example : ∀ base, (applyProg exEnc (.apply1 .int (by decide)) exApplyEnv 0 1 1
 example : ((applyProg exEnc (.apply1 .int (by decide)) exApplyEnv 0 1 1).run [[1, 0], [5, 6, 7]]).2 =
     ([[1, 0], [5, 6, 7], [3]], [.read 0, .read 1, .read 1, .alloc 2, .write 2]) := by decide +kernel
 
+/-- `Filter(a-leaf)` of today's source on the frame with index [2, 0, 1] (the leaf holds at position 1): the mask and the
+result index are allocated and written, the receiver's arrays only read -/
+def exLeafClause : F.Clause := .leaf C01FreshCL.exLeaf
+example : ∀ base, (filterProg CL.LeafCalls.ofLeaf exLeafClause { index := [2, 0, 1] } 0 1).OwnWrites base :=
+  gen_filter_own_writes _ _ _ 0 1
+example : ((filterProg CL.LeafCalls.ofLeaf exLeafClause { index := [2, 0, 1] } 0 1).run [[2, 0, 1], [0, 1]]).2 =
+    ([[2, 0, 1], [0, 1], [0, 0, 1], [1]], [.read 0, .read 1, .alloc 2, .write 2, .alloc 3, .write 3]) := by decide +kernel
+/-- `NullClause`: the receiver is returned, nothing is allocated -/
+example : ((filterProg CL.LeafCalls.ofLeaf .null { index := [2, 0, 1] } 0 1).run [[2, 0, 1], [0, 1]]).2 =
+    ([[2, 0, 1], [0, 1]], [.read 0, .read 1]) := by decide +kernel
+/-- `GroupBy` on the parity of the row number, rows 2, 0, 1: the groups [2, 0] and [1], and the group list -/
+example : ((groupByProg 64 [C01FreshGL.exCmp] [2, 0, 1] 0 1).run [[2, 0, 1], [0, 1]]).2.1 =
+    [[2, 0, 1], [0, 1], [2, 0], [1], [2, 1]] := by decide +kernel
+/-- `Aggregate` with a user function `func([]int) int` (the number of cells) on the int cells 5, 6, 7 and the groups
+[2, 0], [1]: the first-row index [2, 1] and the cells of the aggregated column are allocated and written -/
+def exAggEnv : LGEnv :=
+  { recv := { ty := .int, cells := [.int 5, .int 6, .int 7] }, groups := [[2, 0], [1]],
+    fn := .aggFn .int .int (fun l => .int l.length), builtin := fun _ => none }
+example : ∀ base, (aggregateProg exEnc .int exAggEnv (.int 0) 0 1).OwnWrites base :=
+  gen_aggregate_own_writes exEnc .int (by decide) exAggEnv (.int 0) 0 1
+example : ((aggregateProg exEnc .int exAggEnv (.int 0) 0 1).run [[2, 0, 1], [5, 6, 7]]).2 =
+    ([[2, 0, 1], [5, 6, 7], [2, 1], [2]], [.read 0, .read 1, .alloc 2, .write 2, .alloc 3, .write 3]) := by decide +kernel
+/-- a history with every family, the new ones included -/
+example : ∀ id, id < 3 →
+    (runAll ([GRun.op exSort exH exDir, .filter CL.LeafCalls.ofLeaf exLeafClause { index := [2, 0, 1] } 0 1,
+        .groupBy 64 [C01FreshGL.exCmp] [2, 0, 1] 0 1, .distinctTable 64 [C01FreshGL.exCmp] [2, 0, 1] 0 1,
+        .aggregate .int (by decide) exAggEnv (.int 0) 0 1, .fapply false 0 1, .fapply true 0 1].map (GRun.prog exEnc))
+      exStore).getD id [] = exStore.getD id [] :=
+  gen_any_history_persistent exEnc _ exStore
+
+#print axioms gen_filter_own_writes
+#print axioms gen_groupBy_own_writes
+#print axioms gen_distinct_table_own_writes
+#print axioms gen_aggregate_own_writes
+#print axioms gen_fapply_own_writes
+#print axioms witness_filter_in_place
+#print axioms witness_grouper_in_place
+#print axioms witness_aggregate_sorts_groups
 #print axioms Eff.own
 #print axioms Eff.not_own
 #print axioms gen_project_own_writes
